@@ -194,7 +194,16 @@ def wiring(ctx, p, K):
         det = repr(sts[0])[:200]
         cname = acc_name_of(sts[0].idx[0])
         incs = counter_increments(S, cname) if cname else []
-        ok = value_poly(sts[0].value) == area / (sub_i * sub_i) and l1.lo == ZERO and l1.hi == sub_i * sub_i and l0.lo == ZERO and l0.hi == S_("self.sub_size.shape[0]") \
+        # `self.sub_length` (sub_size ** 2 for a 2-D mask, element by element, same extent) may stand for the square
+        sl = c.lookup("sub_length")
+        sl_ok = sl is not None and [norm_text(r.value).replace(" ", "") for r in wire.returns_of(sl)] in (["self.sub_size**self.mask.dimensions"], ["self.sub_size**2"])
+
+        def unsl(v):
+            if not (sl_ok and isinstance(v, Poly)):
+                return v
+            return v.subst(lambda a: (E_("self.sub_size", *a[2]) * E_("self.sub_size", *a[2])) if (a[0] == "i" and a[1] == "self.sub_length" and len(a[2]) == 1)
+                           else (S_("self.sub_size.shape[0]") if a == ("s", "self.sub_length.shape[0]") else None))
+        ok = unsl(value_poly(sts[0].value)) == area / (sub_i * sub_i) and l1.lo == ZERO and unsl(l1.hi) == sub_i * sub_i and l0.lo == ZERO and unsl(l0.hi) == S_("self.sub_size.shape[0]") \
             and cname is not None and sts[0].idx == (S_(cname + "~"),) and len(incs) == 1 and incs[0][0] == ONE and not real_guards(incs[0][2]) and len(incs[0][3]) == 2
     ctx.ob(rule, f"{c.key}.sub_pixel_areas", ok, where=m, node=m.node, construct=det, message="sub-pixel areas must be pixel_area / sub_size[i]^2 repeated sub_size[i]^2 times for each pixel i in slim order")
 
@@ -404,7 +413,7 @@ def level_advance(ctx, p):
     ctx.ob(rule, m.key + ":level-inputs", ok, where=m, node=calls["array_at_sub_size_from"], construct=f"array_at_sub_size_from{k3}; iterated_array_jit_from{k2}",
            message="each level must be evaluated on the still-unresolved mask at this iteration's sub size and its array used both for the threshold test and the fill")
     # the first 'previous level' is the plain evaluation on the unmasked grid; the last level fills the remainder
-    first = [(t, v) for t, v, n in [(norm_text(n.targets[0]), norm_text(n.value), n) for n in wire.main_line(m) if isinstance(n, ast.Assign) and len(n.targets) == 1] if t == lower_a]
+    first = [(t, v) for t, v, n in [(norm_text(n.targets[0]), norm_text(wire.inline_locals(m, n.value)), n) for n in wire.main_line(m) if isinstance(n, ast.Assign) and len(n.targets) == 1] if t == lower_a]   # (read through a renaming alias)
     okf = len(first) >= 1 and any(t_ in first[0][1] for t_ in ("func(obj, unmasked_grid", "func(obj, self.mask.derive_grid.unmasked"))   # (possibly already wrapped: Array2D(values=func(..), mask=self.mask).native)
     tail = [n for n in wire.main_line(m) if isinstance(n, ast.Assign) and n.lineno > loop.end_lineno and isinstance(n.value, ast.Call) and norm_text(n.value.func).endswith("array_at_sub_size_from")]
     okl = len(tail) == 1 and norm_text(wire.kw(tail[0].value).get("sub_size")) == "self.sub_steps[-1]" and norm_text(wire.kw(tail[0].value).get("mask")) == lower_m
